@@ -12,6 +12,7 @@ import Driver.Mw
 import Driver.Dispatch
 import Driver.Life
 import Driver.Up
+import Driver.Rec
 /-
   Line-protocol driver: one request per line on stdin, one canonical answer per line on stdout.
   The same request lines are executed by the Go harness against the real implementation.
@@ -36,6 +37,7 @@ def step (line : String) : String :=
   | "ds" :: rest => dsLine toks.tail!
   | "lc" :: rest => lcLine toks.tail!
   | "up" :: rest => upLine toks.tail!
+  | "rec" :: rest => recLine toks.tail!
   | "rc" :: rest => rcLine toks.tail!
   | _ => "bad-op"
 
